@@ -103,6 +103,14 @@ func (se *SpecEnv) eval(e ast.Expr) Value {
 	case *ast.Ident:
 		return se.ident(x.Name)
 	case *ast.UnaryExpr:
+		if ix, isIx := x.X.(*ast.IndexExpr); isIx && x.Op == token.AND {
+			// &s[i] for a slice s: the address of the cell (same(p, &s[i]) compares it with a pointer the code formed)
+			if sl, isS := se.rvalue(se.eval(ix.X)).(*SliceV); isS && sl.Obj != nil {
+				if idx, isT := se.rvalue(se.eval(ix.Index)).(*Term); isT {
+					return &PtrV{Obj: sl.Obj, Path: append(append([]PE(nil), sl.Path...), PE{T: F.Add(sl.Off, idx)})}
+				}
+			}
+		}
 		a := se.eval(x.X)
 		if x.Op != token.AND {
 			a = se.rvalue(a)
@@ -981,6 +989,18 @@ func (se *SpecEnv) callSpec(c *ast.CallExpr) Value {
 		return F.Add(sum...)
 	case "be", "le": // big/little-endian value of a byte array or slice window of constant length
 		return se.bytesVal(arg(0), name == "be")
+	case "bewin": // bewin(b, off, n): big-endian value of the n bytes b[off : off+n] (symbolic off and n): big.frombytes
+		{
+			sl, ok := se.deref(arg(0)).(*SliceV)
+			if !ok || sl.Obj == nil {
+				unsup("bewin: not a slice")
+			}
+			arr, ok := se.fr.v.content(se.state(), sl.Obj).(*ArrV)
+			if !ok {
+				unsup("bewin: slice without symbolic contents")
+			}
+			return F.App("big.frombytes", SInt, arr.Arr, F.Add(sl.Off, targ(1)), targ(2))
+		}
 	case "lewords": // lewords(w, lo): little-endian value of the 64-bit words w[lo:] (symbolic lo): big.fromwords, whose
 		// recursive meaning the contract states in its preamble
 		sl, ok := se.deref(arg(0)).(*SliceV)
@@ -1158,7 +1178,15 @@ func (se *SpecEnv) bytesVal(x Value, bigEnd bool) *Term {
 		}
 	case *SliceV:
 		if !a.Len.IsConst() {
-			unsup("be/le of symbolic-length slice")
+			// a window s[e : e+c] has the length (e+c) - e: constant once the difference is normalised as a polynomial
+			saved := F.Distribute
+			F.Distribute = true
+			n := F.fromPoly(F.asPoly(a.Len))
+			F.Distribute = saved
+			if !n.IsConst() {
+				unsup("be/le of symbolic-length slice")
+			}
+			a = &SliceV{Obj: a.Obj, Path: a.Path, Off: a.Off, Len: n, Cap: a.Cap}
 		}
 		for k := int64(0); k < a.Len.K.Int64(); k++ {
 			elems = append(elems, se.index(a, F.I64(k)).(*Term))
